@@ -89,10 +89,11 @@ type Engine struct {
 	Protocol string
 	// HarnessErrors collects statements the model cannot parse or type: a harness problem, never a violation.
 	HarnessErrors []string
-	OnChange func(Change)
-	hookMu       sync.Mutex
-	beforeSelect func()
-	afterSelect  func()
+	OnChange      func(Change)
+	hookMu        sync.Mutex
+	failColumns   int
+	beforeSelect  func()
+	afterSelect   func()
 }
 
 // SetSelectHooks installs functions that run (without the engine lock) when a SELECT on a
@@ -169,6 +170,14 @@ func (e *Engine) AddColumn(table string) {
 	e.mu.Lock()
 	e.tables[table].def.ExtraCols++
 	e.mu.Unlock()
+}
+
+// FailColumns makes the next n reads of a table's column list (information_schema.columns)
+// fail with driver.ErrBadConn; database/sql retries such a query on up to three connections.
+func (e *Engine) FailColumns(n int) {
+	e.hookMu.Lock()
+	e.failColumns = n
+	e.hookMu.Unlock()
 }
 
 // NCols is the current number of database columns of a table (struct columns + added ones).
@@ -399,10 +408,10 @@ func rowLess(a, b driver.Value) bool {
 // ---------- execution ----------
 
 type session struct {
-	e     *Engine
-	inTx  bool
-	work  map[string]*table // transaction-private copy
-	chg   []Change
+	e    *Engine
+	inTx bool
+	work map[string]*table // transaction-private copy
+	chg  []Change
 }
 
 func (s *session) tbl(name string) (*table, error) {
@@ -464,6 +473,17 @@ func (s *session) query(sqlText string, args []driver.Value) (driver.Rows, error
 	}
 	switch st.Kind {
 	case "columns":
+		e.hookMu.Lock()
+		failing := e.failColumns > 0
+		if failing {
+			e.failColumns--
+		}
+		e.hookMu.Unlock()
+		if failing {
+			// the connection breaks while the column list is being read
+			s.log(sqlText, args, st, driver.ErrBadConn)
+			return nil, driver.ErrBadConn
+		}
 		s.log(sqlText, args, st, nil)
 		name, _ := args[1].(string)
 		t, ok := e.tables[name]
@@ -752,9 +772,11 @@ func (e *Engine) Open() *sql.DB { return sql.OpenDB(e) }
 
 type conn struct{ s *session }
 
-func (c *conn) Prepare(string) (driver.Stmt, error) { return nil, errors.New("fakesql: Prepare not supported") }
-func (c *conn) Close() error                        { return nil }
-func (c *conn) Begin() (driver.Tx, error)           { return c.BeginTx(context.Background(), driver.TxOptions{}) }
+func (c *conn) Prepare(string) (driver.Stmt, error) {
+	return nil, errors.New("fakesql: Prepare not supported")
+}
+func (c *conn) Close() error              { return nil }
+func (c *conn) Begin() (driver.Tx, error) { return c.BeginTx(context.Background(), driver.TxOptions{}) }
 
 func (c *conn) BeginTx(ctx context.Context, _ driver.TxOptions) (driver.Tx, error) {
 	c.s.e.mu.Lock()
